@@ -34,7 +34,7 @@ R5_COMPARE = {"lt": ast.Lt, "le": ast.LtE, "eq": ast.Eq, "ne": ast.NotEq, "gt": 
 # expression: no entry either.
 R5_SUBSCRIPT = {"getitem"}
 AST_CLASSES = [ast.AST, ast.stmt, ast.expr, ast.Call, ast.Attribute, ast.Name, ast.Constant, ast.BinOp, ast.UnaryOp, ast.Compare, ast.Subscript, ast.Delete,
-               ast.If, ast.While, ast.Try, ast.ExceptHandler, ast.FunctionDef, ast.Expr, ast.Global, ast.Load, ast.Del, ast.In, *TERMINATORS,
+               ast.If, ast.While, ast.Try, ast.ExceptHandler, ast.FunctionDef, ast.AsyncFunctionDef, ast.Expr, ast.Global, ast.Load, ast.Del, ast.In, *TERMINATORS,
                *set(R5_BINOP.values()), *set(R5_UNARY.values()), *set(R5_COMPARE.values())]
 
 
@@ -69,7 +69,8 @@ def setup(eng, st):
     lid = eng.class_id(list)
     is_list = lambda v: (z3.And(V.is_ref(v), V.cls_of(V.Val.a(v)) == lid), list)  # noqa: E731
     for cname, f in (("Call", "args"), ("If", "body"), ("If", "orelse"), ("While", "body"), ("While", "orelse"), ("Try", "body"), ("Try", "orelse"),
-                     ("Try", "finalbody"), ("Try", "handlers"), ("ExceptHandler", "body"), ("FunctionDef", "body"), ("FunctionDef", "decorator_list"), ("Global", "names")):
+                     ("Try", "finalbody"), ("Try", "handlers"), ("ExceptHandler", "body"), ("FunctionDef", "body"), ("FunctionDef", "decorator_list"),
+                     ("AsyncFunctionDef", "body"), ("AsyncFunctionDef", "decorator_list"), ("Global", "names")):
         eng.field_types[(cname, f)] = is_list
     eng.field_types[("Attribute", "attr")] = lambda v: V.is_str(v)
     eng.field_types[("Name", "id")] = lambda v: V.is_str(v)
@@ -183,8 +184,22 @@ def build(active_known=frozenset()):
     c.ensures("R5: the result is the native operator of the same meaning applied to the same operands in the same order; every other call is returned unchanged", r5_post)
 
     def rp_r5(m, ctx, ob):
-        return R5_REPLAY
+        skip = [n for n, k in (("is_ with a constant operand", "C15-is-to-eq"), ("contains operand order", "C15-contains-order")) if k in active_known]
+        return R5_REPLAY.replace("@SKIP@", repr(skip))
 
+    c.replay(rp_r5)
+    c.replay_without_model = True
+
+    # a call that does not have the operator's arity is not one of the catalogue's rewrites: it has to be left alone (it
+    # raises TypeError when - and only when - it is executed, optimised or not), and the pass itself must not fail on it
+    c = pack.contract(f"{mod}:_optimize_operator_call_attr")
+    c.label = "wrong arity"
+    c.param("fn", OBJ(ast.Attribute)).param("node", OBJ(ast.Call))
+    c.setup(setup)
+    c.requires("the call does not have the arity of the operator function",
+               lambda a: z3.Not(z3.If(z3.Or(*[attr_is(a, k) for k in R5_UNARY]), z3.Length(args(a)) == 1, z3.Length(args(a)) == 2)))
+    c.raises()
+    c.ensures("a call with the wrong number of operands is returned unchanged", lambda a: a.result == a.node)
     c.replay(rp_r5)
     c.replay_without_model = True
     add_visitors(pack, active_known)
@@ -209,6 +224,7 @@ def add_visitors(pack, active_known):
             results of visiting them (here: arbitrary, by induction each is a catalogue rewrite of the old child);
             lists of children are rebuilt in place; the node itself is returned."""
             self_, node = args
+            s.ghost["gv_in"] = s.copy()
             e.havoc_heap(s, [f for f in CHILD_FIELDS])
             s.lists = z3.Const(V.fresh_name("lists_after_generic_visit"), s.lists.sort())
             s.ghost["gv"] = s.copy()
@@ -236,28 +252,39 @@ def add_visitors(pack, active_known):
         g = gv(a)
         return filter_spec(a.eng, lst(a.post.st, result_list), lst(g, old_list_ref))
 
-    def visitor(name, cls):
+    def visitor(name, cls, bodies=()):
         c = pack.contract(f"{mod}:PythonASTOptimizer.{name}")
         c.param("self", OBJ(Opt)).param("node", OBJ(cls))
         c.setup(vsetup)
         c.raises()
+        if bodies:
+            # Visiting a statement has an effect on the pass itself (a `global` statement declares its names in the
+            # current scope, R4), so statements that R2 removes must not be visited: their declarations would make the
+            # pass drop a later, live `global` of the same name.
+            def live_only(a, bodies=bodies):
+                g = a.post.st.ghost["gv_in"]
+                return z3.And(*[filter_spec(a.eng, lst(g, fld(g, a.node, f)), lst(g, fld(g, a.node, f))) for f in bodies])
+
+            c.ensures("only live statements are visited: the statement lists handed to generic_visit contain nothing after a return/raise/break/continue", live_only)
+            c.replay(lambda m, ctx, ob: R4_REPLAY)
+            c.replay_without_model = True
         return c
 
     # ---- visit_While: R0 + R2 on both bodies
-    c = visitor("visit_While", ast.While)
+    c = visitor("visit_While", ast.While, bodies=("body", "orelse"))
     c.ensures("a While with the same test whose body and orelse are the R2-filtered bodies",
               lambda a: z3.And(exact(a.eng, a.result, ast.While), fld(a.post.st, a.result, "test") == fld(gv(a), a.node, "test"),
                                filtered(a, fld(a.post.st, a.result, "body"), fld(gv(a), a.node, "body")),
                                filtered(a, fld(a.post.st, a.result, "orelse"), fld(gv(a), a.node, "orelse"))))
 
     # ---- visit_Try
-    c = visitor("visit_Try", ast.Try)
+    c = visitor("visit_Try", ast.Try, bodies=("body", "orelse", "finalbody"))
     c.ensures("a Try with the same handlers whose body, orelse and finalbody are R2-filtered",
               lambda a: z3.And(exact(a.eng, a.result, ast.Try), fld(a.post.st, a.result, "handlers") == fld(gv(a), a.node, "handlers"),
                                *[filtered(a, fld(a.post.st, a.result, f), fld(gv(a), a.node, f)) for f in ("body", "orelse", "finalbody")]))
 
     # ---- visit_ExceptHandler
-    c = visitor("visit_ExceptHandler", ast.ExceptHandler)
+    c = visitor("visit_ExceptHandler", ast.ExceptHandler, bodies=("body",))
     c.ensures("an ExceptHandler with the same type and name whose body is R2-filtered",
               lambda a: z3.And(exact(a.eng, a.result, ast.ExceptHandler), fld(a.post.st, a.result, "type") == fld(gv(a), a.node, "type"),
                                fld(a.post.st, a.result, "name") == fld(gv(a), a.node, "name"), filtered(a, fld(a.post.st, a.result, "body"), fld(gv(a), a.node, "body"))))
@@ -269,7 +296,7 @@ def add_visitors(pack, active_known):
     c.modifies()
 
     # ---- visit_If: R2, R3, R3'
-    c = visitor("visit_If", ast.If)
+    c = visitor("visit_If", ast.If, bodies=("body", "orelse"))
 
     def if_post(a):
         g, st, r = gv(a), a.post.st, a.result
@@ -346,6 +373,7 @@ def add_visitors(pack, active_known):
             scopes as it was (by visit_FunctionDef's contract, inductively)."""
             self_, node = args
             s.ghost["gv_pre"] = s.copy()
+            s.ghost["gv_in"] = s.copy()
             stack_ref = z3.Select(s.field_array("_global_ctx"), V.Val.a(e.lift(self_, s)))
             stack = z3.Select(s.lists, V.Val.a(stack_ref))
             e.havoc_heap(s, [f for f in CHILD_FIELDS])
@@ -369,7 +397,8 @@ def add_visitors(pack, active_known):
         i, j = z3.Ints("i j")
         sid = a.eng.class_id(set)
         top = S[z3.Length(S) - 1]
-        return z3.And(z3.Length(S) >= 1, V.is_ref(top), V.cls_of(V.Val.a(top)) == sid,
+        stack_ref = fld(a.pre.st, a.self, "_global_ctx")
+        return z3.And(z3.Length(S) >= 1, V.is_ref(top), V.cls_of(V.Val.a(top)) == sid, V.is_ref(stack_ref), V.Val.a(stack_ref) <= 0, V.Val.a(top) <= 0,
                       fld(a.pre.st, a.self, "_global_ctx") != fld(a.pre.st, a.node, "names" if "Global" in a.eng.cur_func_key else "body"))
 
     c = visitor("visit_Global", ast.Global)
@@ -400,36 +429,63 @@ def add_visitors(pack, active_known):
     c.ensures("R4: the statement keeps exactly the names not yet declared in the current scope (dropped when none is left); "
               "the current scope then also holds the declared names; no other scope changes", global_post)
 
-    c = visitor("visit_FunctionDef", ast.FunctionDef)
-    c.setup_.clear()
-    c.setup(r4_setup)
-    c.requires("the scope stack is well-formed", stack_wf)
+    def function_scope(fname, fcls):
+        c = visitor(fname, fcls, bodies=("body",))
+        c.setup_.clear()
+        c.setup(r4_setup)
+        c.requires("the scope stack is well-formed", stack_wf)
 
-    def fresh_scope(a):
-        pre = a.pre.st
-        g0 = a.post.st.ghost["gv_pre"]
-        S0, S1 = ctx_stack(pre, a.self), ctx_stack(g0, a.self)
-        t = S1[z3.Length(S1) - 1]
-        return z3.And(S1 == z3.Concat(S0, z3.Unit(t)), V.is_ref(t), V.Val.a(t) > 0, V.cls_of(V.Val.a(t)) == a.eng.class_id(set),
-                      z3.Not(z3.Select(set_of(g0, t), ANYNAME)),
-                      z3.Implies(ANYK <= 0, z3.Select(g0.sets, ANYK) == z3.Select(pre.sets, ANYK)))
+        def fresh_scope(a):
+            pre = a.pre.st
+            g0 = a.post.st.ghost["gv_pre"]
+            S0, S1 = ctx_stack(pre, a.self), ctx_stack(g0, a.self)
+            t = S1[z3.Length(S1) - 1]
+            return z3.And(S1 == z3.Concat(S0, z3.Unit(t)), V.is_ref(t), V.Val.a(t) > 0, V.cls_of(V.Val.a(t)) == a.eng.class_id(set),
+                          z3.Not(z3.Select(set_of(g0, t), ANYNAME)),
+                          z3.Implies(ANYK <= 0, z3.Select(g0.sets, ANYK) == z3.Select(pre.sets, ANYK)))
 
-    c.ensures("R4: the body of a function is visited in a new scope that is empty (global declarations are per function: "
-              "nothing is inherited from the enclosing scopes) on top of the unchanged enclosing scopes", fresh_scope)
-    c.ensures("R4: afterwards the enclosing scopes are exactly as before",
-              lambda a: z3.And(ctx_stack(a.post.st, a.self) == ctx_stack(a.pre.st, a.self), fld(a.post.st, a.self, "_global_ctx") == fld(a.pre.st, a.self, "_global_ctx"),
-                               z3.Implies(ANYK <= 0, z3.Select(a.post.st.sets, ANYK) == z3.Select(a.pre.st.sets, ANYK))))
-    c.ensures("a FunctionDef with the same name, arguments, decorators and return annotation whose body is R2-filtered",
-              lambda a: z3.And(exact(a.eng, a.result, ast.FunctionDef),
-                               *[fld(a.post.st, a.result, f) == fld(gv(a), a.node, f) for f in ("name", "args", "decorator_list", "returns")],
-                               filtered(a, fld(a.post.st, a.result, "body"), fld(gv(a), a.node, "body"))))
+        c.ensures("R4: the body of a function is visited in a new scope that is empty (global declarations are per function: "
+                  "nothing is inherited from the enclosing scopes) on top of the unchanged enclosing scopes", fresh_scope)
+        c.ensures("R4: afterwards the enclosing scopes are exactly as before",
+                  lambda a: z3.And(ctx_stack(a.post.st, a.self) == ctx_stack(a.pre.st, a.self), fld(a.post.st, a.self, "_global_ctx") == fld(a.pre.st, a.self, "_global_ctx"),
+                                   z3.Implies(ANYK <= 0, z3.Select(a.post.st.sets, ANYK) == z3.Select(a.pre.st.sets, ANYK))))
+        c.ensures("a FunctionDef with the same name, arguments, decorators and return annotation whose body is R2-filtered",
+                  lambda a: z3.And(exact(a.eng, a.result, fcls),
+                                   *[fld(a.post.st, a.result, f) == fld(gv(a), a.node, f) for f in ("name", "args", "decorator_list", "returns")],
+                                   filtered(a, fld(a.post.st, a.result, "body"), fld(gv(a), a.node, "body"))))
 
-    def rp_fd(m, ctx, ob):
-        return R4_REPLAY
+        def rp_fd(m, ctx, ob):
+            return R4_REPLAY
 
-    c.replay(rp_fd)
-    c.replay_without_model = True
+        c.replay(rp_fd)
+        c.replay_without_model = True
 
+
+    for fname, fcls in (("visit_FunctionDef", ast.FunctionDef), ("visit_AsyncFunctionDef", ast.AsyncFunctionDef)):
+        if hasattr(Opt, fname):
+            function_scope(fname, fcls)
+
+    # scope completeness: every kind of function definition the generator emits opens a scope of its own for `global`
+    # statements, so the pass must open one too - a definition kind without a visitor of its own is visited by
+    # generic_visit in the *enclosing* scope, and its `global` statements are then dropped as duplicates
+    def scope_completeness(tier, seed):
+        import os
+
+        from pyvc.run import REPLAY_DIR, run_snippet
+
+        kinds = (("visit_FunctionDef", ast.FunctionDef), ("visit_AsyncFunctionDef", ast.AsyncFunctionDef))
+        missing = [n for n, _ in kinds if not hasattr(Opt, n)]
+        rec = {"name": "R4: every kind of function definition (FunctionDef, AsyncFunctionDef) has a visitor of its own that opens a scope for `global` declarations"
+                       + (f" [missing: {', '.join(missing)}]" if missing else ""),
+               "kind": "scope-completeness", "verdict": "refuted" if missing else "proved", "backend": "enumeration", "time_s": 0.0, "line": 0}
+        if missing:
+            p_ = os.path.join(REPLAY_DIR, "C15", "scope_completeness.py")
+            okr, outp = run_snippet("# replay for property C15\n# failed obligation: " + rec["name"] + "\n" + R4_REPLAY, p_, timeout=120)
+            rec.update(replay=p_, reproduced=okr, replay_output=outp[-1500:], model={"missing": missing})
+        return [{"key": "scope-completeness:basilisp.lang.compiler.optimizer:PythonASTOptimizer", "file": "src/basilisp/lang/compiler/optimizer.py", "lines": [0, 0],
+                 "error": None, "obligations": [rec], "extra": True, "time_s": 0.0}]
+
+    pack.extra.append(scope_completeness)
 
 R4_REPLAY = r'''
 import ast
@@ -449,6 +505,15 @@ def twice():
     y = 5
 outer()()
 twice()
+import asyncio
+async def a1():
+    global z
+    z = 1
+async def a2():
+    global z
+    z = 2
+asyncio.run(a1())
+asyncio.run(a2())
 """
 out = []
 for optimise in (False, True):
@@ -458,11 +523,35 @@ for optimise in (False, True):
     env = {}
     try:
         exec(compile(tree, "<c15-r4>", "exec"), env)
-        out.append((env.get("x"), env.get("y")))
+        out.append((env.get("x"), env.get("y"), env.get("z")))
     except Exception as e:
         out.append("raised " + type(e).__name__)
-print("module globals (x, y) after a nested function re-declares `global x`: unoptimised", out[0], " optimised", out[1])
-print("REPRODUCED" if out[0] != out[1] else "not reproduced")
+print("module globals (x, y, z) after nested / async functions re-declare a global: unoptimised", out[0], " optimised", out[1])
+bad = out[0] != out[1]
+# a `global` statement in dead code (the generator emits such trees; CPython would reject the source text, so the tree is
+# built directly): after the pass the live declaration must still be there
+def G(name):
+    return ast.Global(names=[name])
+def assign(name, v):
+    return ast.Assign(targets=[ast.Name(id=name, ctx=ast.Store())], value=ast.Constant(v))
+for label, wrap in (("if", lambda dead: ast.If(test=ast.Name(id="t", ctx=ast.Load()), body=dead, orelse=[])),
+                    ("while", lambda dead: ast.While(test=ast.Name(id="t", ctx=ast.Load()), body=dead, orelse=[])),
+                    ("try", lambda dead: ast.Try(body=dead, handlers=[ast.ExceptHandler(type=ast.Name(id="ValueError", ctx=ast.Load()), name=None, body=[ast.Pass()])], orelse=[], finalbody=[]))):
+    dead = [ast.Raise(exc=ast.Call(func=ast.Name(id="ValueError", ctx=ast.Load()), args=[], keywords=[]), cause=None), G("w"), assign("w", 1)]
+    fn = ast.FunctionDef(name="f", args=ast.arguments(posonlyargs=[], args=[ast.arg(arg="t")], kwonlyargs=[], kw_defaults=[], defaults=[]),
+                         body=[wrap(dead), G("w"), assign("w", 2)], decorator_list=[], returns=None, type_params=[])
+    mod = ast.fix_missing_locations(optimizer.PythonASTOptimizer().visit(ast.Module(body=[fn], type_ignores=[])))
+    env = {}
+    try:
+        exec(compile(mod, "<c15-dead-global>", "exec"), env)
+        env["f"](False)
+        got = env.get("w")
+    except Exception as e:
+        got = "raised " + type(e).__name__
+    if got != 2:
+        print("a `global w` inside dead code of an %s made the pass drop the live `global w`: module global w is %r after f(False), expected 2" % (label, got))
+        bad = True
+print("REPRODUCED" if bad else "not reproduced")
 '''
 
 
@@ -494,7 +583,11 @@ def run(src_call, extra=""):
     for optimise in (False, True):
         tree = ast.parse(extra + "\nRESULT = " + src_call.replace("OP", ALIAS))
         if optimise:
-            tree = ast.fix_missing_locations(optimizer.PythonASTOptimizer().visit(tree))
+            try:
+                tree = ast.fix_missing_locations(optimizer.PythonASTOptimizer().visit(tree))
+            except Exception as e:
+                outs.append(("the optimiser itself raised " + type(e).__name__, []))
+                continue
         trace = []
         env = {ALIAS: operator, "tr": lambda x: (trace.append(x), x)[1]}
         try:
@@ -503,13 +596,19 @@ def run(src_call, extra=""):
         except Exception as e:
             outs.append(("raised " + type(e).__name__, list(trace)))
     return outs
+SKIP = @SKIP@
 for name, call, extra in [
+    ("wrong arity in a branch that is not taken", "(OP.add(1) if tr(False) else 'ok')", ""),
+    ("wrong arity of a unary operator", "(OP.not_(1, 2) if tr(False) else 'ok')", ""),
+    ("wrong arity, executed", "OP.sub(tr(1))", ""),
     ("is_ with a constant operand", "OP.is_(1.0, 1)", ""),
     ("contains operand order", "OP.contains(tr([1, 2]), tr(1))", ""),
     ("delitem in expression position", "OP.delitem(D, 'a')", "D = {'a': 1}"),
     ("add", "OP.add(tr(1), tr(2))", ""),
     ("getitem", "OP.getitem(tr([5, 6]), tr(1))", ""),
 ]:
+    if name in SKIP:
+        continue
     plain, opt = run(call, extra)
     if plain != opt:
         problems.append("%s: unoptimised -> %r, optimised -> %r" % (name, plain, opt))
